@@ -15,7 +15,8 @@ def expected_text(scn, out_rows):
         for r in out_rows:
             w.writerow(r)
         return s.getvalue()
-    return "".join("".join(r) + "\n" for r in out_rows)  # scenario CIDs declare line delimiter LF
+    sep = os.linesep if scn.get("line", "lf") == "any" else engine.LINE_TEXT[scn.get("line", "lf")]
+    return "".join("".join(r) + sep for r in out_rows)  # the declared line delimiter (os.linesep under 'any', nothing under 'none')
 
 
 def model_out_rows(m):
@@ -26,7 +27,7 @@ def model_out_rows(m):
 
 def run(ctx):
     rnd = ctx.rnd
-    ctx.rule = ("sequences of 0-8 rows mixing accepted rows, field errors, wrong item counts and duplicates x delimited and fixed CIDs (1-4 fields, IsUnique / "
+    ctx.rule = ("sequences of 0-8 rows mixing accepted rows, field errors, wrong item counts and duplicates x delimited and fixed CIDs (fixed: every line delimiter setting LF / CR / CRLF / Any / None; 1-4 fields, IsUnique / "
                 "DistinctCount / plugin checks) x header 0-1; outcome of every write_row (half of the scenarios through write_rows batches), stream contents, then cutplace.rows over the produced output; "
                 "distinct = distinct (CID, row sequence); non-trivial = at least one row written")
     n = 1200 if ctx.tier == "quick" else 15000
@@ -41,10 +42,12 @@ def run(ctx):
             rows = [r[:-1] if (rnd.random() < 0.07 and len(r) > 1) else r for r in rows]
         if rows and rnd.random() < 0.4:
             rows.insert(rnd.randrange(len(rows) + 1), list(rnd.choice(rows)))  # a duplicate
-        header = rnd.choice([0, 0, 0, 1])
-        if header and rows and len(rows[0]) != len(fields):
-            rows[0] = [engine.pad(f["good"][0], f.get("width", 0)) for f in fields]  # header rows are written unvalidated: keep them well-shaped
+        header = rnd.choice([0, 0, 1, 1, 2])
+        for k in range(min(header, len(rows))):
+            if len(rows[k]) != len(fields):
+                rows[k] = [engine.pad(f["good"][0], f.get("width", 0)) for f in fields]  # header rows are written unvalidated: keep them well-shaped
         scns.append({"format": fmt, "allowed": None, "fields": fields, "checks": engine.gen_checks(rnd, fields), "header": header,
+                     "line": rnd.choice(["lf", "cr", "crlf", "any", "none"]),
                      "runs": [{"kind": "W", "rows": rows, "close": True, "batch": rnd.random() < 0.5}]})
     for scn, mruns, iruns in engine.run_scenarios(scns):
         sc = engine.strip_scn(scn)
